@@ -496,6 +496,53 @@ theorem merge_options_error (tu td : Test) (defs : List OptDecl) (user plugin : 
     | error e'' => rw [hd] at hg; simpa using hg
     | ok v => rw [hd] at hg; cases hg
 
+/-! ### where a declared option is visible -/
+
+/-- **option_visible** — at a read position a declared option name resolves to the option exactly when no
+    *nearer* layer binds the name: an object name (table / nickname), a field of the current row already
+    evaluated (or its `id`), a plugin library, a variable, a standard function.  The built-ins
+    (`id count child_index this today now fake template`) are *farther*: they never shadow an option. -/
+theorem option_visible (binds : Layer → List String) (name : String) :
+    resolve binds name = some .option ↔
+      name ∈ binds .option ∧ name ∉ binds .objectName ∧ name ∉ binds .rowField ∧ name ∉ binds .plugin ∧
+      name ∉ binds .variable ∧ name ∉ binds .func := by
+  simp only [resolve, resolveIn, layerOrder, List.reverse_cons, List.reverse_nil, List.nil_append,
+    List.cons_append, List.find?_cons, List.find?_nil]
+  cases h1 : (binds .func).contains name <;> cases h2 : (binds .variable).contains name <;>
+    cases h3 : (binds .plugin).contains name <;> cases h4 : (binds .rowField).contains name <;>
+    cases h5 : (binds .objectName).contains name <;> cases h6 : (binds .option).contains name <;>
+    cases h7 : (binds .builtin).contains name <;>
+    simp_all [List.contains_iff_mem]
+
+/-- the built-in layer is the farthest: a name bound by the options (or by any other layer) never
+    resolves to a built-in -/
+theorem builtin_never_shadows (binds : Layer → List String) (name : String) (L : Layer)
+    (hL : L ≠ .builtin) (h : name ∈ binds L) : resolve binds name ≠ some .builtin := by
+  simp only [resolve, resolveIn, layerOrder, List.reverse_cons, List.reverse_nil, List.nil_append,
+    List.cons_append, List.find?_cons, List.find?_nil]
+  cases L <;> first | exact absurd rfl hL | skip
+  all_goals
+    cases h1 : (binds .func).contains name <;> cases h2 : (binds .variable).contains name <;>
+    cases h3 : (binds .plugin).contains name <;> cases h4 : (binds .rowField).contains name <;>
+    cases h5 : (binds .objectName).contains name <;> cases h6 : (binds .option).contains name <;>
+    simp_all [List.contains_iff_mem]
+
+/-- a name is resolved by the nearest layer that binds it: general form, for any duplicate-free order -/
+theorem resolveIn_last (order : List Layer) (binds : Layer → List String) (name : String) (L : Layer)
+    (h : resolveIn order binds name = some L) : L ∈ order ∧ name ∈ binds L := by
+  unfold resolveIn at h
+  have hm := List.mem_of_find?_eq_some h
+  have hp := List.find?_some h
+  exact ⟨List.mem_reverse.mp hm, by simpa using hp⟩
+
+example : resolve (fun L => match L with
+    | .builtin => ["id", "count", "child_index", "this", "today", "now", "fake", "template"]
+    | .option => ["count", "o1"] | .rowField => ["id"] | .variable => ["child_index"] | _ => []) "count"
+    = some .option := by decide
+example : resolve (fun L => match L with
+    | .builtin => ["id", "count"] | .option => ["id"] | .rowField => ["id"] | _ => []) "id" = some .rowField := by
+  decide
+
 example : mergeOptions .contains .contains [⟨"o", some (.int 5)⟩, ⟨"p", none⟩]
     [("o", .int 0), ("p", .str ""), ("zz", .int 1)] [] =
     .ok ([("o", .int 0), ("p", .str "")], ["zz"]) := by decide
